@@ -140,7 +140,24 @@ func (ex *Exec) keyInit(k string, so Sort) Term {
 	t := ex.vc.fresh("H0_"+shortKey(k), so)
 	ex.initKey[k] = t
 	ex.keySort[k] = so
+	ex.heapAllocatedBefore(t, 0)
 	return t
+}
+
+// heapAllocatedBefore: a heap array that comes from outside the instructions executed so
+// far (the entry heap, the result of a havoc, a loop-head cut) cannot hold the address of an
+// object this execution allocates later. n is the number of allocations made so far.
+func (ex *Exec) heapAllocatedBefore(arr Term, n int) {
+	var inner string
+	switch arr.Sort {
+	case arraySort(SRef, SRef):
+		inner = fmt.Sprintf("(select %s r)", arr.S)
+	case arraySort(SRef, SSlice):
+		inner = fmt.Sprintf("(sbase (select %s r))", arr.S)
+	default:
+		return
+	}
+	ex.vc.assume(tTrue, T(fmt.Sprintf("(forall ((r Ref)) (! (=> ((_ is loc) (root %s)) (<= (locid (root %s)) %d)) :pattern ((select %s r))))", inner, inner, n, arr.S), SBool), "a heap from outside holds no address allocated later")
 }
 
 func shortKey(k string) string {
@@ -165,6 +182,7 @@ func (ex *Exec) get(st State, k string, so Sort) Term {
 		f, seen := ex.lazyHavoc[t.S]
 		if !seen {
 			f = ex.vc.fresh("hv_"+shortKey(k), so)
+			ex.heapAllocatedBefore(f, ex.nLoc)
 			ex.lazyHavoc[t.S] = f
 			if _, known := ex.keySort[k]; !known {
 				ex.keySort[k] = so
